@@ -23,4 +23,10 @@ Section ParamSrc.
     src_outputs binop LMAX (S f) k (PStutter pattern count (VInt c) 1 v) =
       (repeat (Yield v) k, PStutter pattern count (VInt c) (1 + Z.of_nat k) v).
   Proof. intros. rewrite src_outputs_is. apply (stutter_block binop LMAX); lia. Qed.
+  (* PDict.__next__ as written ends with the shortest of its values *)
+  Theorem src_pdict_ends_with_shortest f kv1 k a a' kv2 :
+    (forall k1 a1, In (k1, a1) kv1 -> exists v a1', value binop LMAX f a1 = (Yield v, a1')) ->
+    value binop LMAX f a = (Stop, a') ->
+    fst (src_PDict_next Val.binop V A f (AD (kv1 ++ (k, a) :: kv2))) = Stop.
+  Proof. intros. rewrite <- PDict_next_src. eapply (pdict_ends_with_shortest binop LMAX); eassumption. Qed.
 End ParamSrc.
